@@ -31,18 +31,19 @@ LEVEL_NOTE = ('Projects stay inside the documented domain of the build-system tr
               'subroutines/functions, qualified imports, interface blocks, internal procedures, module variables); '
               'constructs with a known finding are generated in small gated slices only. Which original a written file '
               'derives from is decided from the file name (stem + mode) and the generator ground truth.')
-RULE = ('schedlab project (5-12 routines) written twice; config with implicit driver seeds, replicate/lib/mode entries; '
-        'pipeline drawn from 8 shapes; API (2/3) or CLI (1/3). Non-trivial = plan and conversion both completed, the '
-        'conversion wrote >= 2 files and the plan lists >= 2 files; distinct = hash of sources + config + pipeline + '
-        'path style.')
+RULE = ('schedlab project (5-12 routines + dedicated free driver routines, one unit per file) written twice; config with '
+        'implicit driver seeds, replicate/lib/mode entries; pipeline drawn from 7 shapes (write, dep, wrap+dep, dup, rem, '
+        'dup+rem, dup[+wrap]+dep); API (2/3) or CLI (1/3); 20 of every 64 cases are gated slices (one known-defect '
+        'construct each, key gated:<construct>). Non-trivial = plan and conversion both completed, the conversion wrote '
+        '>= 2 files and the plan lists >= 2 files; distinct = hash of sources + config + pipeline + path style.')
 CASES = {'quick': 108, 'thorough': 1500}
 MIN_NONTRIVIAL = {'quick': 50, 'thorough': 700}
 ANCHORS = ['loki/transformations/build_system/plan.py', 'loki/transformations/build_system/file_write.py',
            'loki/batch/scheduler.py', 'loki/cli/loki_transform.py', 'loki/transformations/dependency.py']
 REQUIRED_REACH = ['plan_file', 'write_plan', 'transform_file', '_get_file_path', 'process_transformation', 'convert',
                   'plan_subroutine']
-REQUIRED_COUNTERS = {'plans_compared': 50, 'files_written_observed': 200, 'cli_cases': 15, 'plan_builds': 8,
-                     'per_lib_lists_checked': 10}
+REQUIRED_COUNTERS = {'plans_compared': 40, 'files_written_observed': 150, 'cli_cases': 10, 'plan_builds': 8,
+                     'per_lib_lists_checked': 10, 'origin_sets_checked': 30}
 ASSUMPTIONS = ['files opened for writing below the project copy (audit hook "open", cross-checked with a directory '
                'snapshot diff) are the files the conversion writes; the plan file itself is excluded',
                'gfortran -O0 -fcheck=all is the reference for "compiles and links"',
@@ -59,18 +60,25 @@ def setup_worker(tier, ctx):
     PL.WriteAudit.get()
 
 
-# gated slices (idx % 32): constructs with a known finding or outside the documented domain of the transformations
-GATES = {3: 'types', 13: 'full_features', 5: 'called_from_internal', 6: 'intf_block', 7: 'multi_unit_file', 9: 'lists',
-         11: 'same_basename', 17: 'sibling_caller', 19: 'function_in_subgraph', 21: 'module_level_import',
-         23: 'mixed_role_module', 15: 'unused_imports', 30: 'rem_then_rename', 28: 'dup_free_then_wrap', 26: 'dup_intf_then_rename', 1: 'kernel_module_globals', 31: 'internal_calls', 25: 'internal_in_subgraph', 27: 'non_procedure_in_subgraph', 29: 'bare_external_wrap'}
+# gated slices (positions 1, 4, 7, ... of idx % 64): constructs with a known finding or outside the documented domain of the transformations
+GATES = ['types', 'full_features', 'called_from_internal', 'intf_block', 'multi_unit_file', 'lists',
+         'same_basename', 'sibling_caller', 'function_in_subgraph', 'module_level_import', 'mixed_role_module',
+         'unused_imports', 'rem_then_rename', 'dup_free_then_wrap', 'dup_intf_then_rename', 'kernel_module_globals',
+         'internal_calls', 'internal_in_subgraph', 'non_procedure_in_subgraph', 'bare_external_wrap']
 
 
 def pick_gate(idx):
     if os.environ.get('C2425_NOGATES'):
         return None
+    if os.environ.get('C2425_GATE'):
+        return os.environ['C2425_GATE']
     if os.environ.get('C2425_ONLYGATES'):
-        return sorted(GATES.values())[idx % len(GATES)]
-    return GATES.get(idx % 32)
+        return GATES[idx % len(GATES)]
+    # one case in three of a 64-cycle is a gated slice; every gate occupies one position of the cycle
+    r = idx % 64
+    if r % 3 == 1 and r // 3 < len(GATES):
+        return GATES[r // 3]
+    return None
 
 
 def gen_case(rng, idx):
